@@ -170,6 +170,106 @@ fn composition(i: usize, cfg: &Cfg, log: &mut Log) {
   log.sample(|| format!("{} -> {} (sect2 day {})", key(), names(want), pillar_name(want2[2])));
 }
 
+/// a lunar hour that has already answered questions is stepped by n double-hours (chains of 1..3 steps, inside the
+/// lunar day and across midnight / month ends); the eight characters, the instant-level view and the civil instant
+/// of the stepped value must be those of the instant 7200*n seconds later, whatever the source had memoised
+fn stepped(i: usize, cfg: &Cfg, log: &mut Log) {
+  use tyme4rs::tyme::Tyme;
+  let mut rng = Rng::new(mix(cfg.seed, i as u64 ^ 0x4C09));
+  let a0 = random_instant(&mut rng);
+  let warm = rng.below(8) as u64;
+  let steps: Vec<i64> = (0..rng.range(1, 3)).map(|_| if rng.below(3) == 0 { rng.range(-40, 40) } else { rng.range(-11, 11) }).collect();
+  let key = || format!("{}_warm{}_steps{:?}", fmt_abs(a0), warm, steps);
+  let r = guard(|| {
+    let mut out: V = vec![];
+    let mut seen = 0u64;
+    let mut late = 0u64;
+    let mut a = a0;
+    let mut h = st_of_abs(a0).get_lunar_hour();
+    for (k, n) in steps.iter().enumerate() {
+      // the source answers some questions first (which ones depends on the draw)
+      match (warm + k as u64) % 8 {
+        0 => {}
+        1 => {
+          let _ = h.get_sixty_cycle_hour();
+        }
+        2 => {
+          let _ = h.get_twelve_star();
+        }
+        3 => {
+          let _ = h.get_solar_time();
+        }
+        4 => {
+          let _ = h.get_eight_char();
+          let _ = h.get_lunar_day().get_sixty_cycle_day();
+        }
+        5 => {
+          let _ = h.get_lunar_day().get_solar_day();
+          let _ = h.get_sixty_cycle_hour();
+        }
+        6 => {
+          let _ = h.get_recommends();
+          let _ = h.get_solar_time();
+        }
+        _ => {
+          let _ = h.get_sixty_cycle_hour();
+          let _ = h.get_solar_time();
+          let _ = h.get_lunar_day().get_sixty_cycle_day();
+          let _ = h.get_lunar_day().get_solar_day();
+        }
+      }
+      a += 7200 * n;
+      if a < cal().dn(1, 2, 10) * 86400 || a > cal().dn(9998, 12, 31) * 86400 {
+        break;
+      }
+      if cal::reform_era_near(a.div_euclid(86400)) {
+        break;
+      }
+      let g = h.next(*n as isize);
+      let want = match four_pillars(a, false) {
+        Some(w) => w,
+        None => break,
+      };
+      if !window_has_jie(a - 2, a + 2) {
+        seen += 1;
+        if a.rem_euclid(86400) >= 23 * 3600 {
+          late += 1;
+        }
+        let e = ec_idx(&g.get_eight_char());
+        let sh = g.get_sixty_cycle_hour();
+        let four = [sh.get_year().get_index() as i64, sh.get_month().get_index() as i64, sh.get_day().get_index() as i64, sh.get_sixty_cycle().get_index() as i64];
+        let own = g.get_sixty_cycle().get_index() as i64;
+        let at = abs_sec_of(&g.get_solar_time());
+        let view_at = abs_sec_of(&sh.get_solar_time());
+        let e4 = ec_idx(&LunarSect2EightCharProvider::new().get_eight_char(g.clone()));
+        let want2 = four_pillars(a, true).unwrap_or(want);
+        if e != want || four != want || own != want[3] || e4 != want2 {
+          out.push((format!("C09/stepped-pillars/{}", key()), format!("step {} ({:+}): eight characters {} / instant view {} / own hour pillar {} / sect2 {}", k, n, names(e), names(four), pillar_name(own), names(e4)), format!("{} at {} (sect2 {})", names(want), fmt_abs(a), names(want2))));
+        }
+        if at != Some(a) || view_at != Some(a) {
+          out.push((format!("C09/stepped-instant/{}", key()), format!("step {} ({:+}): civil instant {:?}, instant view at {:?}", k, n, at.map(fmt_abs), view_at.map(fmt_abs)), fmt_abs(a)));
+        }
+      }
+      h = g;
+    }
+    (out, seen, late)
+  });
+  log.ev(1);
+  match r {
+    Ok((v, seen, late)) => {
+      log.count("stepped.hours_judged", seen);
+      log.count("stepped.late_zi_hours", late);
+      if seen > 0 {
+        log.nt_distinct(mix(a0 as u64, 0x57E9 + warm));
+      }
+      for (sig, o, e) in v {
+        log.violate(sig, "LunarHour::next after earlier queries", key(), o, e);
+      }
+    }
+    Err(msg) => log.violate(format!("C09/panic-stepped/{}", key()), "LunarHour::next after earlier queries", key(), format!("panic: {}", msg), "no panic".into()),
+  }
+}
+
 fn inverse(i: usize, cfg: &Cfg, log: &mut Log) {
   let mut rng = Rng::new(mix(cfg.seed, i as u64 ^ 0x1C09));
   let a = random_instant(&mut rng);
@@ -293,21 +393,26 @@ pub fn run(cfg: &Cfg) -> (Log, Meta) {
   let ni = cfg.tier.pick(2_000usize, 50_000usize);
   log.merge(par_range(ni, 20, |i, l| inverse(i, cfg, l)));
   log.merge(par_range(cfg.tier.pick(300usize, 5_000usize), 20, |i, l| inverse_inconsistent(i, cfg, l)));
+  let ns = cfg.tier.pick(4_000usize, 150_000usize);
+  log.merge(par_range(ns, 50, |i, l| stepped(i, cfg, l)));
   let _ = (FIRST, LAST);
   log.floor("table.day_pillar_hour_cells", 8_640);
   log.floor("compose.instants", cfg.tier.pick(2_000, 100_000));
   log.floor("compose.late_zi_instants", cfg.tier.pick(50, 2_000));
   log.floor("inverse.queries", cfg.tier.pick(1_000, 25_000));
+  log.floor("stepped.hours_judged", cfg.tier.pick(3_000, 100_000));
+  log.floor("stepped.late_zi_hours", cfg.tier.pick(100, 4_000));
   log.floor("inverse.found_in_the_queried_double_hour", cfg.tier.pick(500, 12_000));
   for k in ["inverse.double_hour_00_zi", "inverse.double_hour_05_si", "inverse.double_hour_11_hai"] {
     log.floor(k, cfg.tier.pick(20, 500));
   }
   let meta = Meta {
     rule: format!(
-      "exhaustive table: 3 x 60 consecutive days (all 60 day pillars, incl. the 1582 cut-over) x 24 hours x minutes {{00:00, 59:59}}: hour branch, Five-Rats stem with the 23:00 roll, instant-level day pillar, lunar day pillar unrolled, index in day, name, both routes; composition: {} seeded instants (1/8 in 22:00-01:00, 1/8 within 2 h of a Jie/Lichun instant) - four pillars vs first-principles oracle, eight characters via LunarHour, SixtyCycleHour, both providers, name round trip; inverse search: {} seeded (instant, year range) queries (ranges +-0..2, +-0..61, +-0..120, +-1) - every returned instant has the characters, and one lies in the queried double-hour unless that contains a Jie instant; {} inconsistent queries must return nothing. distinct_nontrivial = distinct instants / queries plus the 23h and 0h table cells.",
+      "exhaustive table: 3 x 60 consecutive days (all 60 day pillars, incl. the 1582 cut-over) x 24 hours x minutes {{00:00, 59:59}}: hour branch, Five-Rats stem with the 23:00 roll, instant-level day pillar, lunar day pillar unrolled, index in day, name, both routes; composition: {} seeded instants (1/8 in 22:00-01:00, 1/8 within 2 h of a Jie/Lichun instant) - four pillars vs first-principles oracle, eight characters via LunarHour, SixtyCycleHour, both providers, name round trip; inverse search: {} seeded (instant, year range) queries (ranges +-0..2, +-0..61, +-0..120, +-1) - every returned instant has the characters, and one lies in the queried double-hour unless that contains a Jie instant; {} inconsistent queries must return nothing; stepped: {} seeded chains of 1..3 LunarHour::next steps (-40..40 double-hours) from hours that first answered a drawn subset of their getters - eight characters (both sects), instant view, own hour pillar and civil instant of each stepped value vs the oracle at the instant 7200*n s later. distinct_nontrivial = distinct instants / queries plus the 23h and 0h table cells.",
       nc,
       ni,
-      cfg.tier.pick(300, 5_000)
+      cfg.tier.pick(300, 5_000),
+      ns
     ),
     assumptions: vec!["term instants from the library; Five Tigers / Five Rats rhymes encoded by name in the harness and self-tested on 2024-02-10 12:00".into(), "instants on the 160 reform-era civil days listed under C02/C07 are not drawn".into(), "instants within 2 s of a Jie instant are not judged (the library rounds term instants to the second)".into()],
     exhaustive: false,
